@@ -19,6 +19,6 @@ def keyLe (a b : Diagnostic) : Bool :=
 def sorted (ds : List Diagnostic) : List Diagnostic := ds.mergeSort keyLe
 
 /-- known exceptions to "every emitted code is documented" (finding F8, known-findings.json) -/
-def knownUndocumented : List Nat := [163, 332, 390, 580, 583, 584, 1142, 1880]
+def knownUndocumented : List Nat := []     -- F8 repaired: the eight codes now have sections in docs/errors.md
 
 end Diag
